@@ -12,7 +12,7 @@ BUILT = {
    note="Trusted: the harness's 5-card classifier (two implementations cross-checked on all 2,598,960 hands; 7,462 classes and per-category counts asserted at start-up). Orders: all 7! only for sampled sets.",
    ref="DESIGN.md section 4 (C01)"),
  "C02": dict(
-   technique="proptest structured generation + reference enumeration model (multiset equality both ways)",
+   technique="proptest structured generation + reference enumeration model (multiset equality both ways); thorough: coverage-guided libFuzzer target fz_eval with the same model as oracle",
    category="exploration",
    text="Generated (flop, 1-6 ranges) configurations - card-pool ranges with frequent player-player blocking, ranges overlapping the flop, identical ranges, sizes 1..1326 including 255/256/257 and >255 beside narrow ranges - are drained and compared as multisets with an independent enumeration of all legal deals: nothing missing, nothing extra, nothing twice; board layout, hole cards per seat and probability are checked per showdown (for <= 4 players the reported f32 must be one of the values some order/association of the multiplications gives, for one player the weight itself; weights include neighbouring f32 values and tiny values). A second stream takes a prefix of configurations far too large to drain (3 ranges of up to 1326 combos, > 2^32 slots): legality, order, first position, count. Sampled; a cost budget bounds what is drained completely.",
    note="Trusted: the harness's enumeration model (evalmodel.rs). Probability for more than 4 players is compared within (n+1) f32 roundings because the statement fixes the value, not the multiplication order. Weights from {0} U [2^-10,1] (down to 2^-24 with <= 4 players).",
@@ -24,9 +24,9 @@ BUILT = {
    note="Trusted: the reference classifier of C01. Hole cards colliding with each other are outside the statement and not generated.",
    ref="DESIGN.md section 4 (C03)"),
  "C04": dict(
-   technique="exhaustive enumeration of all (from,to) windows for fixed configurations + proptest model-based histories (scope calls, chains) against the unscoped run",
+   technique="exhaustive enumeration of all (from,to) windows for fixed configurations + proptest model-based histories (scope calls, chains) against the unscoped run and against the enumeration model; thorough: coverage-guided libFuzzer target fz_eval",
    category="exploration",
-   text="For 2 (quick) / 6 (thorough) fixed configurations every one of the 693,253 ordered windows from <= to over the 1177 positions is generated and the scoped run compared, position by position, with the unscoped run's window, with three further next() calls after exhaustion. Generated histories over small random configurations add repeated scope() calls (last wins), windows biased to row edges/terminal/empty, chains of 0-63 cuts whose concatenation must equal the full run, and prefixes of windows over configurations too large to drain (> 2^32 odometer slots).",
+   text="For 2 (quick) / 6 (thorough) fixed configurations every one of the 693,253 ordered windows from <= to over the 1177 positions is generated and the scoped run compared, position by position, with the unscoped run's window, with three further next() calls after exhaustion. Generated histories over small random configurations add repeated scope() calls (last wins), windows biased to row edges/terminal/empty, chains of 0-63 cuts whose concatenation must equal the full run, short windows compared directly with the enumeration model restricted to the window, and prefixes of windows over configurations too large to drain (> 2^32 odometer slots).",
    note="Trusted: the unscoped run of the same build as reference (C02 decides that it is the right enumeration); 64-bit showdown fingerprints. Only valid positions with from <= to are generated.",
    ref="DESIGN.md section 4 (C04)"),
  "C05": dict(
